@@ -37,7 +37,7 @@ NT_RULE = ('case = species spec (one model per slot trans/vib/rot/elec/nucl + mi
            'values, pinned witnesses, all 162 g2 molecules, all 13 point-group labels); non-trivial = '
            'species with >=2 non-empty modes of different kind, or geometry case with >=3 atoms; '
            'distinct = distinct canonical JSON of the spec')
-REQUIRED_ORACLES = ['R1', 'R2', 'R3', 'R4', 'R5', 'R6', 'R7', 'R8', 'R9', 'INV']
+REQUIRED_ORACLES = ['R1', 'R2', 'R3', 'R4', 'R5', 'R6', 'R7', 'R8', 'R9']   # INV is best-effort (private caches)
 REQUIRED_CLASSES = ['trans:none', 'trans:1', 'trans:2', 'trans:3',
                     'vib:none', 'vib:HarmonicVib', 'vib:QRRHOVib', 'vib:EinsteinVib', 'vib:DebyeVib',
                     'vib:imag_dropped', 'vib:imag_substituted',
@@ -66,6 +66,10 @@ ASSUMPTIONS = [
     'LSR electronic model: relational clauses only; ConstantMode misc models: additivity (R6) only',
     'get_EoRT(include_ZPE=True) on a species whose vibrational slot has no ZPE is only evaluated '
     'with raise_error=False (raise_error=True documents an AttributeError)',
+    'geometry clause: besides invariance, three sanity references that no correct implementation can '
+    'miss on the G2 set: linear/nonlinear where every / some i-j-k angle deviates <1 / >10 degrees from '
+    'collinear, rotational temperatures from the inertia tensor (3e-3; pMuTT amu literal has 4 digits; '
+    'observed 2.3e-5), molar mass vs. the sum of ASE atomic masses (5e-2; observed 3.7e-4)',
     're-assigning vib_wavenumbers, imaginary_substitute or spin after construction must give the '
     'object of a fresh construction with the new value (anchor: cached _valid_* / _degeneracy must '
     'track them)',
@@ -485,10 +489,11 @@ def _memo(fn):
     return g
 
 
-def relational(ctx, get, mech0, conds, interval, Ppair, has_trans, r5=True):
+def relational(ctx, get, mech0, conds, interval, Ppair, has_trans, r5=True, tr=None):
     """R1-R5 on anything that answers get(quantity, T, P) -> float (mode object or StatMech).
     `get` raises on failure of the code under test."""
     vals = {}
+    mechP = dict(mech0, trans=tr) if tr is not None else mech0     # R4 / R5: which translation
     for T, P in conds:
         v = {}
         for q in QUANTS:
@@ -504,7 +509,7 @@ def relational(ctx, get, mech0, conds, interval, Ppair, has_trans, r5=True):
                       UoRT=v['UoRT'], SoR=v['SoR'])
         if r5 and 'HoRT' in v and 'UoRT' in v:
             ctx.close('R5', v['HoRT'] - v['UoRT'], 1.0 if has_trans else 0.0, TOL_REL,
-                      dict(mech0, rel='H-U'), scale=max(1.0, 1e-6 * abs(v['UoRT'])), T=T, P=P)
+                      dict(mechP, rel='H-U'), scale=max(1.0, 1e-6 * abs(v['UoRT'])), T=T, P=P)
     # integral forms over the interval, at the first pressure
     T1, T2 = interval
     P = conds[0][1]
@@ -531,11 +536,11 @@ def relational(ctx, get, mech0, conds, interval, Ppair, has_trans, r5=True):
     # pressure dependence at the first temperature
     T = conds[0][0]
     P1, P2 = Ppair
-    s1 = ctx.call('R4', dict(mech0, q='SoR'), get, 'SoR', T, P1)
-    s2 = ctx.call('R4', dict(mech0, q='SoR'), get, 'SoR', T, P2)
+    s1 = ctx.call('R4', dict(mechP, q='SoR'), get, 'SoR', T, P1)
+    s2 = ctx.call('R4', dict(mechP, q='SoR'), get, 'SoR', T, P2)
     if s1 is not core.NOVALUE and s2 is not core.NOVALUE:
         want = -math.log(P2 / P1) if has_trans else 0.0
-        ctx.close('R4', s2 - s1, want, TOL_REL, dict(mech0, rel='S(P)'), T=T, P1=P1, P2=P2)
+        ctx.close('R4', s2 - s1, want, TOL_REL, dict(mechP, rel='S(P)'), T=T, P1=P1, P2=P2)
     return vals
 
 
@@ -635,19 +640,20 @@ def _observe_species(ctx, sm, objs, cur, spec, misc_objs=None, relations=True):
           'use_references': o['use_references']}
     vibc = _cls_of(cur['vib'])
     has_trans = cur['trans'] is not None
-    mech0 = _hist_mech({'class': 'StatMech', 'vib': vibc if cur['vib'] else 'none',
-                        'trans': cur['trans']['n_degrees'] if has_trans else 'none'})
+    mech0 = _hist_mech({'class': 'StatMech', 'vib': vibc if cur['vib'] else 'none'})
+    tr = cur['trans']['n_degrees'] if has_trans else 'none'
     if cur['elec'] and cur['elec']['type'] == 'LSR':
         mech0['elec'] = 'LSR'
     if relations:
         get = lambda q, T, P: _num(getattr(sm, 'get_' + q)(T=T, P=P, **kw))
-        relational(ctx, get, mech0, spec['conds'], spec['interval'], spec['Ppair'], has_trans, r5=False)
+        relational(ctx, get, mech0, spec['conds'], spec['interval'], spec['Ppair'], has_trans, r5=False, tr=tr)
         kw_off = dict(kw, use_references=False)
         for T, P in spec['conds']:
-            h = ctx.call('R5', dict(mech0, q='HoRT'), sm.get_HoRT, T=T, P=P, **kw_off)
-            u = ctx.call('R5', dict(mech0, q='UoRT'), sm.get_UoRT, T=T, P=P, **kw_off)
+            h = ctx.call('R5', dict(mech0, q='HoRT', trans=tr), sm.get_HoRT, T=T, P=P, **kw_off)
+            u = ctx.call('R5', dict(mech0, q='UoRT', trans=tr), sm.get_UoRT, T=T, P=P, **kw_off)
             if h is not core.NOVALUE and u is not core.NOVALUE:
-                ctx.close('R5', _num(h) - _num(u), 1.0 if has_trans else 0.0, TOL_REL, dict(mech0, rel='H-U'),
+                ctx.close('R5', _num(h) - _num(u), 1.0 if has_trans else 0.0, TOL_REL,
+                          dict(mech0, rel='H-U', trans=tr),
                           scale=max(1.0, 1e-6 * abs(_num(u))), T=T, P=P)
     # ---- R6 additivity -------------------------------------------------
     nm = len(misc_objs or [])
@@ -800,6 +806,38 @@ def _rotation(euler):
     return rz(a) @ ry(b) @ rz(c)
 
 
+def _max_noncollinearity(pos):
+    """largest deviation (degrees) of any i-j-k angle, over all triples and all three vertex
+    choices, from the nearer of 0 and 180 degrees; 0 for fewer than three atoms"""
+    import itertools
+    import numpy as np
+    worst = 0.0
+    for i, j, k in itertools.combinations(range(len(pos)), 3):
+        for a, b, c in ((i, j, k), (j, i, k), (i, k, j)):
+            u, v = pos[a] - pos[b], pos[c] - pos[b]
+            cs = float(np.dot(u, v) / (np.linalg.norm(u) * np.linalg.norm(v)))
+            ang = math.degrees(math.acos(max(-1.0, min(1.0, cs))))
+            worst = max(worst, min(ang, 180.0 - ang))
+    return worst
+
+
+def _rot_temperatures_ref(atoms, gclass):
+    """theta = hbar^2 / (2 I kB) from the principal moments about the centre of mass"""
+    import numpy as np
+    AMU = 1.660539040e-27
+    m = atoms.get_masses()
+    r = atoms.get_positions()
+    r = r - np.sum(m[:, None] * r, axis=0) / np.sum(m)
+    I = np.zeros((3, 3))
+    for mi, ri in zip(m, r):
+        I += mi * (np.dot(ri, ri) * np.eye(3) - np.outer(ri, ri))
+    ev = np.linalg.eigvalsh(I) * AMU * 1e-20
+    hbar = ref.H / (2.0 * math.pi)
+    if gclass == 'linear':
+        return [hbar ** 2 / (2.0 * ev[-1] * ref.KB)]
+    return sorted(hbar ** 2 / (2.0 * e * ref.KB) for e in ev)
+
+
 def run_geometry(spec, ctx):
     import numpy as np
     from ase.collections import g2
@@ -846,6 +884,27 @@ def run_geometry(spec, ctx):
         expect = 'monatomic' if n == 1 else 'linear' if n == 2 else None
         if expect:
             ctx.check('R8', d0['geometry'] == expect, dict(mech, what='geometry_by_atom_count'), got=d0['geometry'])
+    # independent classification of the original geometry (only where unambiguous) and
+    # independent rotational temperatures from the inertia tensor (generous tolerance: pMuTT's
+    # amu literal has four digits)
+    dev = _max_noncollinearity(a0.get_positions())
+    if d0['geometry'] is not core.NOVALUE and n >= 3:
+        if dev > 10.0:
+            ctx.check('R8', d0['geometry'] == 'nonlinear', dict(mech, what='geometry_vs_angles'), got=d0['geometry'],
+                      max_deviation_deg=dev, mol=spec['mol'])
+        elif dev < 1.0:
+            ctx.check('R8', d0['geometry'] == 'linear', dict(mech, what='geometry_vs_angles'), got=d0['geometry'],
+                      max_deviation_deg=dev, mol=spec['mol'])
+    if d0['rot_T'] is not core.NOVALUE and gclass in ('linear', 'nonlinear'):
+        want = _rot_temperatures_ref(a0, gclass)
+        got = sorted(float(x) for x in d0['rot_T'])
+        if len(want) == len(got):
+            ctx.close('R8', got, want, 3e-3, dict(mech, what='rot_temperatures_vs_inertia'),
+                      scale=np.maximum(np.abs(want), 1e-300), mol=spec['mol'])
+    if d0['mass'] is not core.NOVALUE:
+        m_ase = float(np.sum(a0.get_masses()))
+        ctx.close('R8', d0['mass'], m_ase, 5e-2, dict(mech, what='molar_mass_vs_atomic_masses'), scale=m_ase,
+                  mol=spec['mol'])
     if ok('rot_T'):
         r0, r1 = sorted(float(x) for x in d0['rot_T']), sorted(float(x) for x in d1['rot_T'])
         if ctx.check('R8', len(r0) == len(r1), dict(mech, what='rot_temperatures_count'), original=r0, moved=r1,
